@@ -96,10 +96,20 @@ def registerBlocks (d : DState) (items : List String) : DState × List String :=
     ({ acc.1 with decBlocks := AList.insert acc.1.decBlocks blob decoded,
                   codecBad := acc.1.codecBad + (if same then 0 else 1) }, acc.2 ++ [blob])) (d, [])
 
+/-- the model's own decoding of an announced 80-byte header blob (hash = SHA-256d of the bytes) -/
+def decodeHeaderOwn (blob : String) : Option NextHeader :=
+  let bs := hexToBytes blob
+  match Btc.BlockCodec.decodeHeader bs with
+  | some (h, []) => some ⟨Btc.BlockCodec.headerHash bs, Btc.Merkle.ofBeBytes h.prev, h.time, h.bits, blob⟩
+  | _ => none
+
 def registerHeaders (d : DState) (items : List String) : DState × List String :=
   items.foldl (fun (acc : DState × List String) it =>
     let (blob, dec) := splitBlob it
-    ({ acc.1 with decHeaders := AList.insert acc.1.decHeaders blob (parseHeaderDec blob dec) }, acc.2 ++ [blob])) (d, [])
+    let own := decodeHeaderOwn blob
+    let same := own == parseHeaderDec blob dec
+    ({ acc.1 with decHeaders := AList.insert acc.1.decHeaders blob own,
+                  codecBad := acc.1.codecBad + (if same then 0 else 1) }, acc.2 ++ [blob])) (d, [])
 
 def dropPrefix (s : String) (n : Nat) : String := (s.drop n).toString
 
@@ -418,14 +428,15 @@ def stepCanister (d : DState) (ws : List String) : DState × String :=
     -- C05: the balance for the same request (compared with the sum of the reported UTXOs)
     -- implementation column: get_balance; specification column: the sum over get_utxos for the
     -- same request (whose pages are compared with the implementation's on the `q utxosall` line)
-    let bal := match s.getBalance (.ok (strBytes addr)) ((optNat c).getD 0) with
-      | .ok v => toString v
-      | other => showBalance other
+    -- implementation column: its balance minus the sum of the UTXOs IT returned for the same request;
+    -- the model computes the same difference for its own answers; the specification is `diff=0`
     let filter : State.UtxosFilter := match optNat c with | some k => .minConf k | none => .none_
-    let spec := match s.getUtxos (.ok (strBytes addr)) filter Btc.Gen.maxUtxosPerResponse with
-      | .ok r => toString ((r.utxos.map (·.value)).foldl (· + ·) 0)
-      | other => showUtxosResult other
-    (d, bal ++ " ## " ++ spec)
+    let model := match s.getBalance (.ok (strBytes addr)) ((optNat c).getD 0),
+                       s.getUtxos (.ok (strBytes addr)) filter Btc.Gen.maxUtxosPerResponse with
+      | .ok v, .ok r => s!"diff={(v : Int) - ((r.utxos.map (·.value)).foldl (· + ·) 0 : Nat)}"
+      | .ok _, other => showUtxosResult other
+      | other, _ => showBalance other
+    (d, model ++ " ## diff=0")
   | ["cutat", addr, c], some s =>
     -- C04: the block named by min_confirmations = c and the ledger state there
     let best := Spec.bestPath CBlock.diff s.unstable.tree
